@@ -70,6 +70,31 @@ example : ∃ g scid now, Impl.handleNetworkUpdate g (.channelFailure scid true)
       revert this; decide,
    rfl⟩
 
+/-- utxo.rs check_channel_announcement (the script test is translated): a looked-up TxOut validates an announcement
+    iff it pays to the expected script (the 2-of-2 of the announced bitcoin keys); with any other script the
+    announcement is refused and every graph stays exactly as it was. -/
+theorem utxo_answer_validates_iff_script_matches (value script expected : Nat) :
+    (Impl.utxoOfTxOut value script expected = .value value ↔ script = expected) ∧
+    (script ≠ expected → ∀ (g : Graph) (a : ChanAnn),
+      (Impl.applyChanAnn g { a with utxo := Impl.utxoOfTxOut value script expected }).1 = g) := by
+  constructor
+  · unfold Impl.utxoOfTxOut Gen.utxoScriptRefused
+    by_cases h : script = expected <;> simp [h]
+  · intro h g a
+    have hu : Impl.utxoOfTxOut value script expected = .unknownTx := by
+      unfold Impl.utxoOfTxOut Gen.utxoScriptRefused; simp [h]
+    rw [hu, Impl.applyChanAnn_eq]
+    unfold Gossip.applyChanAnn
+    cases chanAnnPre g { a with utxo := .unknownTx } with
+    | some r => rfl
+    | none =>
+      simp only
+      split
+      · rfl
+      · split <;> rfl
+
+example : Impl.utxoOfTxOut 1000 1 0 = .unknownTx ∧ Impl.utxoOfTxOut 1000 0 0 = .value 1000 := by decide
+
 /-! ### which signature is checked against which key (round 5)
    `Gen.chanAnnSigChecks` / `Gen.nodeAnnSigChecks` (Generated/GossipSig.lean) are the (signature field, key field)
    pairs translated from the secp_verify_sig! statements of gossip.rs::verify_channel_announcement /
